@@ -46,33 +46,68 @@ def value_of(n, env):
         return env.get(n.get("n"), ANY)
     if n.get("k") == "tuple":
         return T(*[value_of(x, env) for x in n.get("es", n.get("args", []))])
+    if n.get("k") == "adt" and n.get("v") and not n.get("fields"):
+        return V(n["v"])
     return ANY
 
 
-def ev(n, env, eq):
-    """-> set of True / False / None"""
+UNIT = ("unit",)
+
+
+def is_ret(x):
+    return isinstance(x, tuple) and x and x[0] == "ret"
+
+
+def ev(n, env, eq, leaf=None):
+    """-> set of outcomes: True / False / None (not interpretable) / UNIT (a statement's `()`) / ("ret", v) (the function returned v)"""
     n = peel(n)
     if not isinstance(n, dict):
         return {None}
     k = n.get("k")
     if k == "block":
-        if n.get("stmts"):
-            # `let` statements are not interpreted
-            for st in n["stmts"]:
-                if st.get("k") not in ("let",):
-                    return {None}
-                return {None}
-        return ev(n.get("expr"), env, eq)
+        out = set()
+        env = dict(env)
+        for st in n.get("stmts") or []:
+            sk = st.get("k")
+            if sk == "let":
+                if st.get("else") is not None:
+                    out.add(None)
+                    continue
+                if st.get("init") is not None:
+                    bind(st.get("pat"), value_of(st["init"], env), env)
+                continue
+            if sk in ("if", "match", "return", "block"):
+                r = ev(st, env, eq, leaf)
+                out |= {x for x in r if is_ret(x)}
+                if None in r:
+                    out.add(None)
+                if r and all(is_ret(x) for x in r):
+                    return out              # the block always returns here
+                continue
+            # any other statement (a log line, an assertion) cannot decide the result unless it can return
+            from core import walk as _walk
+            if any(x.get("k") == "return" for x in _walk(st, skip_tracing=False)):
+                out.add(None)
+        if n.get("expr") is not None:
+            out |= ev(n["expr"], env, eq, leaf)
+        else:
+            out.add(UNIT)
+        return out
+    if k == "return":
+        r = ev(n.get("e"), env, eq, leaf) if n.get("e") is not None else {UNIT}
+        return {x if is_ret(x) else ("ret", x) for x in r}
     if k == "lit":
         v = str(n.get("v"))
         return {True} if "true" in v else {False} if "false" in v else {None}
     if k == "un" and n.get("op") == "Not":
-        return {None if x is None else (not x) for x in ev(n["e"], env, eq)}
+        return {x if is_ret(x) else (None if x not in (True, False) else (not x)) for x in ev(n["e"], env, eq)}
     if k == "logic":
         l, r = ev(n["l"], env, eq), ev(n["r"], env, eq)
         out = set()
         for a in l:
-            if n["op"] == "Or":
+            if is_ret(a):
+                out.add(a)
+            elif n["op"] == "Or":
                 if a is True:
                     out.add(True)
                 elif a is False:
@@ -94,8 +129,11 @@ def ev(n, env, eq):
         ops, neg = n["args"][:2], callee_matches(n, "PartialEq::ne")
     if ops is not None:
         names = {var_name(peel(o)) for o in ops}
-        if names == {"old_answer", "current_answer"} or names == set(eq["names"]):
+        if eq and names == set(eq["names"]):
             return {eq["equal"] != neg}
+        va, vb = value_of(ops[0], env), value_of(ops[1], env)
+        if va != ANY and vb != ANY and va[0] == "variant" and vb[0] == "variant" and not va[2] and not vb[2]:
+            return {(va[1] == vb[1]) != neg}
         return {None}
     if k == "call":
         fn = str(n.get("fn", "")).split("::")[-1]
@@ -114,7 +152,7 @@ def ev(n, env, eq):
             if sol is None:
                 return {None}
             return {sol == ("Ambig" if fn == "is_ambig" else "Unique")}
-        return {None}
+        return {leaf(n)} if leaf else {None}
     if k == "match":
         val = value_of(n.get("scrut"), env)
         arms = select_arms(n, val)
@@ -129,27 +167,37 @@ def ev(n, env, eq):
                 g = ev(arm["guard"], e2, eq)
                 if g == {False}:
                     continue
-                out |= ev(arm["body"], e2, eq)
+                out |= ev(arm["body"], e2, eq, leaf)
                 if g == {True} and pat_certain(arm, val):
                     break
                 continue
-            out |= ev(arm["body"], e2, eq)
+            out |= ev(arm["body"], e2, eq, leaf)
         return out or {None}
     if k == "if":
         c = ev(n.get("cond"), env, eq)
         out = set()
         for x in c:
+            if is_ret(x):
+                out.add(x)
+                continue
+            if x not in (True, False):
+                x = None
             if x is True or x is None:
-                out |= ev(n.get("then"), env, eq)
+                out |= ev(n.get("then"), env, eq, leaf)
             if x is False or x is None:
-                out |= ev(n.get("else"), env, eq) if n.get("else") is not None else {None}
+                out |= ev(n.get("else"), env, eq, leaf) if n.get("else") is not None else {UNIT}
         return out
     if k == "letexpr":
         val = value_of(n.get("e"), env)
         from core import pat_match
         r = pat_match(n["pat"], val)
         return {True} if r == YES else {False} if r == NO else {None}
-    return {None}
+    return {leaf(n)} if leaf else {None}
+
+
+def ev_fn(th, env, eq):
+    """outcomes of a whole function body: explicit returns and the tail value merged"""
+    return {x[1] if is_ret(x) else x for x in ev(th, env, eq)}
 
 
 def pat_certain(arm, val):
@@ -167,14 +215,18 @@ def table(ck, facts, R, which=("stale", "diverge")):
         return
     b = facts.body(key[0])
     th = user_block(facts.thir(key[0]))
-    params = [p for p in (b.d.get("params") or [])]
+    # the two answers are the 2nd and 3rd parameter (after &self), whatever they are called
+    pnames = [p.get("n") if isinstance(p, dict) else None for p in (b.d.get("thir_params") or [])]
+    pnames = [x for x in pnames if x and x != "self"][-2:]
+    if len(pnames) != 2:
+        pnames = ["old_answer", "current_answer"]
     n = 0
     for ko, vo in KINDS.items():
         for kc, vc in KINDS.items():
             # Err carries no data (NoSolution is a unit struct): two Err answers are always equal
             for equal in ((True,) if ko == kc == "Err" else (True, False) if ko == kc else (False,)):
-                env = {"old_answer": vo, "current_answer": vc}
-                res = ev(th, env, {"equal": equal, "names": ("old_answer", "current_answer")})
+                env = {pnames[0]: vo, pnames[1]: vc}
+                res = ev_fn(th, env, {"equal": equal, "names": tuple(pnames)})
                 want = equal or kc == "Ambig"
                 inst = "reached_fixed_point:(%s,%s,%s)" % (ko, kc, "equal" if equal else "different")
                 n += 1
